@@ -280,6 +280,15 @@ def run(prog: Program, col: Collector, tier: str, refs: Optional[Refs] = None, c
                                     return True
                 return False
 
+            # ... and a renaming substitutes VARIABLES: a Slice (or any other value) selects part of the destination, whose other
+            # entries must hold the unit of the op
+            cls_tests = [x for g in guards for x in ast.walk(g.test) if isinstance(x, ast.Call) and isinstance(x.func, ast.Name) and x.func.id == "isinstance" and len(x.args) == 2]
+            classes = {refs.resolve(y) or norm(y) for x in cls_tests for y in (x.args[1].elts if isinstance(x.args[1], ast.Tuple) else [x.args[1]])}
+            col.check(bool(cls_tests) and classes <= {"funsor.terms.Variable"}, f"{f.fq}::return {srcn}::values are variables",
+                      "the shortcut is taken only when every substituted value is a Variable",
+                      f"`return {srcn}` is taken for values of classes {sorted(c_.rsplit('.', 1)[-1] for c_ in classes) or 'any'}: only a renaming by Variables leaves the source "
+                      "unchanged; a Slice (or index tensor) writes the source into PART of the destination, and the entries it does not reach must be the unit of the op "
+                      "(the adjoint of a sliced leaf would otherwise be the semiring one there)", f.loc(ret))
             col.check(any(distinct_test(g.test) for g in guards), f"{f.fq}::return {srcn}",
                       "the source is returned unchanged only when the substituted variables are pairwise distinct (an injective renaming)",
                       f"`return {srcn}` is not guarded by a test that the values of `{subsn}` are pairwise distinct: scattering along a diagonal (two keys onto one "
